@@ -32,3 +32,16 @@ def method_of_definition_dict(fn, args):
 def string_validator_method(fn, args):
     from hed.validator.util.string_util import StringValidator
     return _wrap(fn(StringValidator(), **args))
+
+
+class _Obj:
+    def __init__(self, **kw):
+        self.__dict__.update(kw)
+
+
+def char_validator_method(fn, args):
+    from hed.validator.util.char_util import CharValidator
+    a = dict(args)
+    me = a.pop("self")
+    v = CharValidator(modern_allowed_char_rules=me._validate_characters)
+    return _wrap(fn(v, **a))
